@@ -1205,7 +1205,7 @@ class Epoch(object):
             or not isinstance(day, (int, float))
         ):
             raise TypeError("Invalid input type")
-        if day < 1 or day > 31 or month < 1 or month > 12 or year < -4712:
+        if day < 1 or day >= 32 or month < 1 or month > 12 or year < -4712:
             raise ValueError("Invalid input data")
         # This algorithm is described in pages 75-76 of Meeus book
         x = iint(year)
